@@ -136,6 +136,9 @@ theorem KN_afterAttach (σ : Sess) (o : Oid) (h : KN σ) : KN (afterAttach σ o)
 theorem KN_deleted_upd (σ : Sess) (l : List Oid) (h : KN σ) : KN { σ with deleted := l } := h
 theorem KN_new_upd (σ : Sess) (l : List Oid) (h : KN σ) : KN { σ with new := l } := h
 
+@[simp] theorem registerNew_imap (σ : Sess) (o : Oid) : (registerNew σ o).imap = σ.imap := by
+  unfold registerNew; split <;> rfl
+
 theorem KN_saveImpl (σ : Sess) (o : Oid) (h : KN σ) : KN (saveImpl σ o).1 := by
   unfold saveImpl
   split
@@ -271,17 +274,21 @@ theorem KN_failNondet (c : Bool) (r : R) (h : KN r.1) : KN (failNondet c r).1 :=
   · exact KN_markNondetIf _ _ h
   · exact h
 
+theorem KN_registerFinish (σ : Sess) (os : List Oid) (h : KN σ) : KN (registerFinish σ os) := by
+  unfold registerFinish
+  simp only
+  apply KN_new_upd
+  apply KN_foldl _ (fun σ a h => KN_emit _ _ _ h)
+  apply KN_foldl _ KN_registerAlteredOne
+  exact KN_foldl _ (fun σ a h => KN_setO _ _ _ h) _ _ h
+
 theorem KN_registerPersistent (σ : Sess) (os : List Oid) (h : KN σ) : KN (registerPersistent σ os).1 := by
   unfold registerPersistent
   simp only
   apply KN_bind
   · exact KN_failNondet _ _ (KN_registerKeys _ _ (KN_markNondetIf _ _ h))
   · intro τ hτ
-    simp only [ok]
-    apply KN_new_upd
-    apply KN_foldl _ (fun σ a h => KN_emit _ _ _ h)
-    apply KN_foldl _ KN_registerAlteredOne
-    exact KN_foldl _ (fun σ a h => KN_setO _ _ _ h) _ _ hτ
+    exact KN_registerFinish τ os hτ
 
 /-! snapshots -/
 
@@ -454,6 +461,7 @@ theorem KN_flush (σ : Sess) (h : KN σ) : KN (flush σ).1 := by
       · exact h
       · apply KN_bind (KN_requireActive _ h)
         intro τ hτ
+        unfold flushCore
         exact KN_match_fail _ _ (KN_flushExecute τ _ _ hτ) KN_flushFailed
 
 theorem KN_autoflush (σ : Sess) (h : KN σ) : KN (autoflush σ).1 := KN_flush σ h
